@@ -1566,6 +1566,11 @@ def coverage(done, tier):
             "truncating_overwrites": tot.get("fs_truncating_opens", 0),
             "process_restarts": tot.get("restarts", 0),
             "semantic_corruptions": tot.get("corruptions", 0),
+            "loads_under_relative_names": tot.get("relative_name_loads", 0),
+            "loads_with_stated_format_under_other_extension": tot.get("stated_format_loads", 0),
+            # 0 on a tree whose loaders read no environment variable (nothing to redirect)
+            "loads_with_environment_variables_redirected": tot.get("loads_under_changed_environment", 0),
+            "two_process_restarts_with_busy_reader": tot.get("two_process_restarts", 0),
         },
         "simulated_steps": {
             "raw_write_calls": tot.get("fs_raw_write_calls", 0),
